@@ -28,7 +28,7 @@ theorem GrowOutcome.capPost {E : Env} {s : GS} {c a : Nat} {x : Except Panic Uni
   cases h with
   | noop h1 h2 =>
     exact ⟨hf, fun p hp => by simp at hp, by simp, fun _ => .inl rfl⟩
-  | rejected p h1 h2 =>
+  | rejected p h1 h2 h3 =>
     exact ⟨hf, fun _ _ => GS.sameHdr_refl s, by simpa using h2, fun hp => by simp at hp⟩
   | allocFailed req L hL hreq hk =>
     exact ⟨hf, fun _ _ => GS.refused_sameHdr s req, by simp, fun hp => by simp at hp⟩
